@@ -21,6 +21,9 @@ def units(tier):
     return [H("C13", M, "check_kill_points", 400, ["loky.backend.synchronize:SemLock.__init__", "loky.backend.synchronize:SemLock._cleanup",
                                                    "loky.backend.resource_tracker:main"],
               "owner SIGKILLed after 2..4 of the externally visible effects (create, REGISTER, unlink, UNREGISTER) or never; early user unlink or not"),
+            H("C13", M, "check_copy_after_release", 400, ["loky.backend.synchronize:SemLock.__setstate__", "loky.backend.synchronize:SemLock.__getstate__",
+                                                         "loky.backend.synchronize:SemLock._cleanup", "loky.backend.resource_tracker:main"],
+              "1..2 unpickled copies of a Lock / RLock, rebuilt before or after the creator released the object"),
             H("C13", M, "check_lifecycle_t" if big else "check_lifecycle_q", 1500 if big else 400,
               ["loky.backend.synchronize:SemLock.__init__", "loky.backend.synchronize:SemLock._cleanup",
                "loky.backend.synchronize:SemLock.__setstate__", "loky.backend.synchronize:SemLock._make_name",
